@@ -284,7 +284,9 @@ pub fn generate(_ctx: &mut Ctx, seed: u64, i: usize, mode: &str) -> Case {
     let paths: Vec<(String, &'static str)> = (0..nfiles)
         .map(|k| {
             let (ext, c) = if rng.chance(1, 10) { EXTS[4] } else { EXTS[[0, 1, 2, 3, 5, 6][rng.below(6)]] };
-            let dir = ["", "src/", "a/", "b/", "b/b/", "docs/x y/"][rng.below(6)];
+            // one file in ten lives under a hidden directory: the directory walk never reaches it (it is not in `walk`), a
+            // path argument may still match it, and a diff naming it puts it in scope all the same
+            let dir = if rng.chance(1, 10) { [".ci/", ".github/workflows/", "src/.gen/"][rng.below(3)] } else { ["", "src/", "a/", "b/", "b/b/", "docs/x y/"][rng.below(6)] };
             // one file in eight has a name that is registered as a whole (no extension in the `Path::extension` sense)
             if rng.chance(1, 8) { (format!("{dir}m{k}/{}", ["Makefile", "makefile"][rng.below(2)]), "#") }
             else { (format!("{dir}f{k}.{ext}"), c) }
@@ -343,10 +345,11 @@ pub fn generate(_ctx: &mut Ctx, seed: u64, i: usize, mode: &str) -> Case {
     }
     for k in order { diff += &sections[k]; }
     let with_globs = mode == "select" && rng.chance(1, 3) || (mode == "drift" || mode == "flags") && rng.chance(1, 6);
-    let walk: Vec<String> = files.iter().map(|f| f.0.clone()).collect();
+    let all: Vec<String> = files.iter().map(|f| f.0.clone()).collect();
+    let walk: Vec<String> = all.iter().filter(|p| !p.split('/').any(|c| c.starts_with('.'))).cloned().collect();
     // path arguments may cover only some of the files: the others are walked but not allowed, and are still examined
-    // through the diff (touched blocks only)
-    let allow: Vec<String> = if with_globs && rng.chance(1, 2) { walk.iter().filter(|_| rng.chance(1, 2)).cloned().collect() } else { walk.clone() };
+    // through the diff (touched blocks only); hidden files may be matched by a path argument without being walked
+    let allow: Vec<String> = if with_globs && rng.chance(1, 2) { all.iter().filter(|_| rng.chance(1, 2)).cloned().collect() } else { all.clone() };
     // mode `flags`: drift scenarios under a random subset of the validators given to --enable or --disable (the `affects`
     // verdict needs the blocks of files that carry no rule of a selected validator: plain named targets)
     let (mut enabled, mut disabled) = (vec![], vec![]);
